@@ -1,8 +1,9 @@
 ---- MODULE DuctMC ----
 (* Exhaustive model: every well-typed program of <= MaxSteps steps (From counts as one); after any of them a visit
-   may start with a visitor failing at callback position k (0 = never), for every k.  Invariants: the tree built as
-   coded is the tree the stack discipline prescribes (Agree, ChainOk, NodeCount) and every visit state satisfies
-   the statement (Visit).  WithVisit = FALSE explores the programs only (larger MaxSteps). *)
+   may start; at every callback the visitor either succeeds or fails (action Fail), so every failing position k of
+   every program is explored.  Invariants: the tree built as coded is the tree the stack discipline prescribes
+   (TreeAgrees, OpenChain, NodeCount) and every visit state satisfies the statement (Visit).
+   WithVisit = FALSE explores the programs only (larger MaxSteps). *)
 EXTENDS Duct
 CONSTANTS MaxSteps, WithVisit
 VARIABLES bs, vis
@@ -11,11 +12,10 @@ Init == bs \in {Start(t) : t \in FromTypes} /\ vis = VIdle
 Build == /\ vis.st = "idle" /\ bs.n < MaxSteps
          /\ \E st \in Steps(bs) : bs' = Do(bs, st)
          /\ UNCHANGED vis
-StartVisit == /\ WithVisit /\ vis.st = "idle"
-              /\ \E k \in 0..(2 * Count(bs.ast)) : vis' = VStart(bs.ast, k)
-              /\ UNCHANGED bs
-Visit1 == vis.st = "run" /\ vis' = VStep(vis) /\ UNCHANGED bs
-Next == Build \/ StartVisit \/ Visit1
+StartVisit == WithVisit /\ vis.st = "idle" /\ vis' = VStart(bs.ast) /\ UNCHANGED bs
+Visit1 == vis.st = "run" /\ vis' = VStep(vis, FALSE) /\ UNCHANGED bs
+Fail == vis.st = "run" /\ AtCallback(vis) /\ vis' = VStep(vis, TRUE) /\ UNCHANGED bs
+Next == Build \/ StartVisit \/ Visit1 \/ Fail
 Spec == Init /\ [][Next]_vars
 
 TreeAgrees == Agree(bs)
